@@ -75,17 +75,27 @@ fn run_before(ctx: &mut Ctx, steps: &[Before], evs: &mut Vec<Ev>) -> Result<(), 
     Ok(())
 }
 
-fn run_cont(ctx: &mut Ctx, cont: &[usize], evs: &mut Vec<Ev>) -> Result<Vec<Rend>, Fail> {
+/// continuation step: (word, ending) with ending 0 = finish, 1 = commit of candidate 0, 2 = commit of the last candidate
+fn run_cont(ctx: &mut Ctx, cont: &[(usize, u8)], evs: &mut Vec<Ev>) -> Result<Vec<Rend>, Fail> {
     let mut rends = vec![];
-    for k in cont {
-        type_word(ctx, WORDS[*k], evs, &mut rends)?;
+    for (k, ending) in cont {
+        let shown = type_word(ctx, WORDS[*k], evs, &mut rends)?;
         // a backspace in the middle so that the re-shown list is compared too
         evs.push(Ev::Bs);
+        let mut after_bs = None;
         if let Out::Sugg(r) = ctx.apply(&Ev::Bs)? {
+            after_bs = Some(r.clone());
             rends.push(r);
         }
-        evs.push(Ev::Finish);
-        ctx.apply(&Ev::Finish)?;
+        // a lonely suggestion counts as a list of one (commit 0 is what a front-end sends for it)
+        let n = after_bs.as_ref().or(shown.as_ref()).map(|r| if matches!(r, Rend::Single { .. }) { 1 } else { r.len() }).unwrap_or(0);
+        let ev = match ending {
+            1 if n > 0 => Ev::Commit(0),
+            2 if n > 0 => Ev::Commit(n - 1),
+            _ => Ev::Finish,
+        };
+        evs.push(ev.clone());
+        ctx.apply(&ev)?;
     }
     Ok(rends)
 }
@@ -179,7 +189,12 @@ pub fn run(report: &Report, thorough: bool) -> Evidence {
         serde_json::Value::Object(m).to_string()
     };
     let edits: Vec<Edit> = vec![Edit::None, Edit::Write(0), Edit::Write(1), Edit::Write(2), Edit::Write(3), Edit::Remove];
-    let conts: Vec<Vec<usize>> = vec![vec![0], vec![1], vec![2], vec![0, 1], vec![1, 0], vec![2, 0]];
+    // continuations: words ended by finish, or by a commit (the store written by the live context must equal the one
+    // a new context writes)
+    let conts: Vec<Vec<(usize, u8)>> = vec![
+        vec![(0, 0)], vec![(1, 0)], vec![(2, 0)], vec![(0, 0), (1, 0)], vec![(1, 0), (0, 0)], vec![(2, 0), (0, 0)],
+        vec![(0, 1), (0, 0)], vec![(0, 2), (0, 0)], vec![(1, 2), (0, 1), (1, 0)],
+    ];
 
     let runs = AtomicU64::new(0);
     let rend_compared = AtomicU64::new(0);
@@ -271,6 +286,7 @@ pub fn run(report: &Report, thorough: bool) -> Evidence {
                     let store_after_update = std::fs::read(c1.selection_file()).ok();
                     let mut e_live = evs.clone();
                     let got = run_cont(&mut live, cont, &mut e_live);
+                    let store_live = std::fs::read(c1.selection_file()).ok();
                     // a new context over the same user files
                     match &store_after_update {
                         Some(b) => std::fs::write(c1.selection_file(), b).unwrap(),
@@ -288,6 +304,28 @@ pub fn run(report: &Report, thorough: bool) -> Evidence {
                     fresh.with_pre = false;
                     let mut e_fresh = vec![];
                     let exp = run_cont(&mut fresh, cont, &mut e_fresh);
+                    let store_fresh = std::fs::read(c1.selection_file()).ok();
+                    // compared on the words committed in the continuation (the live context may additionally persist
+                    // entries it had derived and memoised in memory earlier — same behaviour, more keys)
+                    let committed: Vec<&str> = cont.iter().filter(|(_, e)| *e != 0).map(|(k, _)| &WORDS[*k][..WORDS[*k].len() - 1]).collect(); // typed word minus the backspaced letter
+                    let canon = |b: &Option<Vec<u8>>| -> String {
+                        match b.as_ref().map(|b| serde_json::from_slice::<std::collections::BTreeMap<String, String>>(b)) {
+                            None => "<no store>".to_string(),
+                            Some(Ok(m)) => format!("{:?}", committed.iter().map(|w| (w.to_string(), m.get(*w).cloned())).collect::<Vec<_>>()),
+                            Some(Err(_)) => "<unreadable store>".to_string(),
+                        }
+                    };
+                    let absent_equiv = |x: &str| x == "<no store>" || committed.is_empty() || x == format!("{:?}", committed.iter().map(|w| (w.to_string(), None::<String>)).collect::<Vec<_>>());
+                    if canon(&store_live) != canon(&store_fresh) && !(absent_equiv(&canon(&store_live)) && absent_equiv(&canon(&store_fresh))) {
+                        report.add(
+                            Violation::new("C11", "update-differs-from-new-context", "update-differs:store-written")
+                                .opts(&c1)
+                                .events(&e_live)
+                                .feat("edit", format!("{:?}", edit))
+                                .feat("new_flags", c2.flags())
+                                .detail(format!("after the continuation the learned-selection store is {:?} in the updated context but {:?} when a new context runs the same continuation (update to [{}])", canon(&store_live), canon(&store_fresh), c2.flags())),
+                        );
+                    }
                     events.fetch_add((e_live.len() + e_fresh.len()) as u64, Ordering::Relaxed);
                     match (got, exp) {
                         (Ok(g), Ok(x)) => {
